@@ -34,7 +34,7 @@ NODE_BUDGET = 200000
 @st.composite
 def _history_case(draw, tier):
     cfg = draw(history.configs(wrappers=("interval", "interval", "interval", "reverse", "reverse2", "path", "tree"),
-                               max_pieces=20000))
+                               max_pieces=20000, lattice=False))
     big = tier == "thorough"
     ops = draw(history.op_lists(cfg, min_ops=2, max_ops=24 if big else 12, max_sweep=150 if big else 60,
                                 allow_point=True))
